@@ -317,7 +317,7 @@ def family(t, sd):
     big = [1e-9, 1e9, -1e-9, 123456.789, 0.1, 1 / 3, -2.5e-7, 1e15, 7e-5]
     if t == 'quick':
         specs += gen.l_exhaustive()[::9]
-        specs += gen.l_seeded(51, 2500, named=True, offsets=True, satisfy=True)
+        specs += gen.l_seeded(51, 2500, named=True, offsets=True, satisfy=True, probe=('coef', 'rhs', 'obj', 'off'))
         specs += gen.l_seeded(52, 1500, named=True, offsets=True, coefs=[0, 1, -1, 2.5] + big, rhss=[0, 1, -1] + big)
     else:
         specs += gen.l_exhaustive(level=1)[::7]
